@@ -155,6 +155,18 @@ def bits(carrier, dtype, spelling):
     sx.prove((new & full) == (((raw & full) & ~(mask << lo)) | (fv << lo)), "exactly the field's bits change",
              tag + "/write")
     sx.prove(car.var.bits[key] == fv, "bit field reads back", tag + "/readback")
+    if spelling == "name" and lo > 0:
+        # the definitions are a public table: after an in-place edit the name means the new bits
+        car.odvar.bit_definitions["FIELD"] = [0]
+        rb2, raw2 = _fresh_raw(dtype)
+        car.set_raw_bytes(sx.items(rb2))
+        sx.prove(car.var.bits["FIELD"] == (raw2 & 1), "name read through the current definition", tag + "/redefined-read")
+        nb = sx.fresh_int("nb", 0, 1)
+        car.var.bits["FIELD"] = nb
+        new2 = sx.le_int(car.raw_bytes(), dtype in SIGNED)
+        sx.prove((new2 & full) == (((raw2 & full) & ~1) | nb), "name written through the current definition",
+                 tag + "/redefined-write")
+        sx.reach("bits-redefined")
     sx.reach("bits")
 
 
@@ -405,7 +417,7 @@ META = dict(
                     "writing the sign bit of a signed type through .bits", "non-contiguous bit lists"],
     assumptions=["z3 FP theory for float64 arithmetic"],
     stubs=["struct", "bytes", "dict displays -> SymDict", "logging"],
-    required_reach=["bits", "bits-kept", "desc", "desc-edited", "desc-outside", "phys-int", "phys-float", "phys-real", "phys-large", "phys-samples"],
+    required_reach=["bits", "bits-redefined", "bits-kept", "desc", "desc-edited", "desc-outside", "phys-int", "phys-float", "phys-real", "phys-large", "phys-samples"],
     limits=dict(quick=dict(query_timeout_ms=200000), thorough=dict(query_timeout_ms=900000)),
     validate_every=dict(quick=7, thorough=3),
 )
